@@ -53,7 +53,7 @@ pub fn cases(args: &[String]) {
     let seed = arg_u64(args, "--seed", 1);
     let n = arg_u64(args, "--n", 200);
     let mut rng = SplitMix64::new(seed ^ 0xC16);
-    let lambdas = [1e-9, 1e-6, 1e-3, 0.015748, 0.1, 0.5, std::f64::consts::LN_2, 1.0, 2.0, 5.0, 10.0, 20.0, 30.0, (64f64 / 63.).ln()];
+    let lambdas = [1e-9, 1e-6, 1e-3, 0.015748, 0.1, 0.5, std::f64::consts::LN_2, 1.0, 2.0, 5.0, 10.0, 20.0, 30.0, (64f64 / 63.).ln(), 38.0, 50.0];
     let mut out: Vec<Value> = Vec::new();
     for li in 0..lambdas.len() {
         let lambda = lambdas[li];
@@ -139,7 +139,7 @@ pub fn law(args: &[String]) {
     let seed = arg_u64(args, "--seed", 1);
     let n = arg_u64(args, "--n", 2_000_000) as usize;
     let mut found: Vec<Value> = Vec::new();
-    for lambda in [1e-6f64, 0.015748, 0.5, std::f64::consts::LN_2, 2.0, 10.0, 30.0] {
+    for lambda in [1e-6f64, 0.015748, 0.5, std::f64::consts::LN_2, 1.0, 2.0, 5.0, 10.0, 30.0, 45.0] {
         let e = ExpRestricted01::new(lambda);
         let mut rng = Xoshiro256PlusPlus::seed_from_u64(seed ^ lambda.to_bits());
         let ts = [0.05, 0.1, 0.25, 0.5, 0.75, 0.9];
